@@ -1,6 +1,7 @@
 package main
 
 import (
+	"bufio"
 	"bytes"
 	"context"
 	"encoding/json"
@@ -27,30 +28,33 @@ func init() { cmds["node"] = cmdNode }
 // ---------------------------------------------------------------- scenario
 
 type ScConf struct {
-	Version     int     `json:"version"`
-	Sys         int     `json:"sys"`
-	Comp        int     `json:"comp"`
-	Dialect     string  `json:"dialect"` // common | none | nohb | no66 | fakehb
-	InKey       B       `json:"inkey"`
-	OutKey      B       `json:"outkey"`
-	HbDisable   bool    `json:"hb_disable"`
-	HbPeriodMs  int     `json:"hb_period_ms"`
-	HbSysType   int     `json:"hb_systype"`
-	HbAutopilot int     `json:"hb_autopilot"`
-	SrEnable    bool    `json:"sr_enable"`
-	SrFreq      int     `json:"sr_freq"`
-	IdleMs      int     `json:"idle_ms"`
-	ReadMs      int     `json:"read_ms"`
-	WriteMs     int     `json:"write_ms"`
-	ReconnectMs int     `json:"reconnect_ms"`
-	ExpectInit  string  `json:"expect_init"` // "" | "fail"
-	IdleSilent  [][]int `json:"idle_silent"`
-	IdleActive  [][]int `json:"idle_active"`
-	SkipHbRate  bool    `json:"skip_hb_rate"`
-	RetryInit   bool    `json:"retry_init"`  // a first Initialize fails at a last, extra endpoint (busy port); Initialize is then called again on the SAME Node value without it
-	LegacyCtor  bool    `json:"legacy_ctor"` // the node is made by the deprecated NewNode(NodeConf) instead of Node.Initialize
-	ReuseMsgs   bool    `json:"reuse_msgs"`  // writer goroutines reuse one message struct, changing it between calls
-	Sid         int     `json:"sid"`
+	Version      int     `json:"version"`
+	Sys          int     `json:"sys"`
+	Comp         int     `json:"comp"`
+	Dialect      string  `json:"dialect"` // common | none | nohb | no66 | fakehb
+	InKey        B       `json:"inkey"`
+	OutKey       B       `json:"outkey"`
+	HbDisable    bool    `json:"hb_disable"`
+	HbPeriodMs   int     `json:"hb_period_ms"`
+	HbSysType    int     `json:"hb_systype"`
+	HbAutopilot  int     `json:"hb_autopilot"`
+	SrEnable     bool    `json:"sr_enable"`
+	SrFreq       int     `json:"sr_freq"`
+	IdleMs       int     `json:"idle_ms"`
+	ReadMs       int     `json:"read_ms"`
+	WriteMs      int     `json:"write_ms"`
+	ReconnectMs  int     `json:"reconnect_ms"`
+	ExpectInit   string  `json:"expect_init"` // "" | "fail"
+	IdleSilent   [][]int `json:"idle_silent"`
+	IdleActive   [][]int `json:"idle_active"`
+	SkipHbRate   bool    `json:"skip_hb_rate"`
+	RetryInit    bool    `json:"retry_init"`     // a first Initialize fails at a last, extra endpoint (busy port); Initialize is then called again on the SAME Node value without it
+	LegacyCtor   bool    `json:"legacy_ctor"`    // the node is made by the deprecated NewNode(NodeConf) instead of Node.Initialize
+	ReuseMsgs    bool    `json:"reuse_msgs"`     // writer goroutines reuse one message struct, changing it between calls
+	MuteWire     bool    `json:"mute_wire"`      // custom transports do not record what is written to them (scenarios judged on events alone)
+	SrEventsOnly bool    `json:"sr_events_only"` // stream requests are judged on the stream-requested events alone (the wire is muted / may overflow)
+	SecondLife   bool    `json:"second_life"`    // after Close the SAME Node value is initialized once more and closed again
+	Sid          int     `json:"sid"`
 }
 
 type ScEndpoint struct {
@@ -69,6 +73,7 @@ type ScItem struct {
 	Comp      int    `json:"comp"`
 	Autopilot int    `json:"autopilot"`
 	N         int    `json:"n"`
+	TsBackS   int    `json:"ts_back_s"` // keyed input: the sender's clock is this many seconds behind the harness's
 }
 
 type ScStep struct {
@@ -94,6 +99,8 @@ type ScStep struct {
 	N      int           `json:"n"`
 	Sync   bool          `json:"sync"`
 	Items  []ScBurstItem `json:"items"`
+	AtMs   int           `json:"at_ms"`  // burst: handed to the transports this long after Initialize returned (0: at once)
+	NoRead bool          `json:"noread"` // peer_connect: the peer sends but never reads what the node writes to it
 }
 
 // ScBurstItem: one item of a burst (all items are recorded first, then handed to the transports by one goroutine
@@ -255,7 +262,9 @@ func (c *ctlRWC) Write(b []byte) (int, error) {
 		return 0, errClosedT
 	}
 	// record under the transport lock so that the order of TW records is the order on the wire
-	c.p.rec.Put(M{"e": "TW", "ep": c.ep, "peer": 0, "bytes": B(append([]byte{}, b...)), "t": c.p.ms()})
+	if !c.p.sc.Conf.MuteWire {
+		c.p.rec.Put(M{"e": "TW", "ep": c.ep, "peer": 0, "bytes": B(append([]byte{}, b...)), "t": c.p.ms()})
+	}
 	c.okCnt++
 	c.p.touch()
 	c.mu.Unlock()
@@ -280,12 +289,13 @@ type gate struct {
 }
 
 type player struct {
-	sc    Scenario
-	rec   *Rec
-	t0    time.Time
-	node  *gomavlib.Node
-	ctls  map[int]*ctlRWC
-	addrs map[int]string
+	sc     Scenario
+	rec    *Rec
+	t0     time.Time
+	initAt time.Time // when Initialize returned
+	node   *gomavlib.Node
+	ctls   map[int]*ctlRWC
+	addrs  map[int]string
 
 	mu              sync.Mutex
 	insts           map[*gomavlib.Channel]int    // channel pointer -> instance number (per endpoint)
@@ -408,8 +418,14 @@ func tagMsg(tag, g int) *common.MessageNamedValueInt {
 var feedKey = frame.NewV2Key(bytes.Repeat([]byte{0x5A}, 32))
 
 // itemBytes builds the bytes of an incoming item with the real writer (input generation).
+var (
+	itemRWOnce sync.Once
+	itemRW     *dialect.ReadWriter
+)
+
 func (p *player) itemBytes(it *ScItem) []byte {
-	drw := mustRW(common.Dialect)
+	itemRWOnce.Do(func() { itemRW = mustRW(common.Dialect) })
+	drw := itemRW
 	sink := &recWriter{}
 	ver := frame.V2
 	if it.Kind == "v1" {
@@ -451,6 +467,27 @@ func (p *player) itemBytes(it *ScItem) []byte {
 	}
 	w.WriteMessage(m) //nolint:errcheck
 	out := append([]byte{}, sink.buf.Bytes()...)
+	if it.TsBackS != 0 && key != nil && ver == frame.V2 {
+		// every sender has its own clock: the same frame, stamped and signed by a sender whose clock is behind
+		rd := &frame.Reader{BufByteReader: bufio.NewReader(bytes.NewReader(out))}
+		rd.Initialize() //nolint:errcheck
+		fr, err := rd.Read()
+		f2, ok := fr.(*frame.V2Frame)
+		if err != nil || !ok {
+			fatal("ts_back_s: cannot re-read the item: %v", err)
+		}
+		f2.SignatureTimestamp -= uint64(it.TsBackS) * 100000
+		f2.Signature = f2.GenerateSignature(key)
+		sink2 := &recWriter{}
+		w2 := &frame.Writer{ByteWriter: sink2, OutVersion: frame.V2, OutSystemID: 1}
+		if err := w2.Initialize(); err != nil {
+			fatal("ts_back_s: %v", err)
+		}
+		if err := w2.WriteFrame(f2); err != nil {
+			fatal("ts_back_s: %v", err)
+		}
+		out = append([]byte{}, sink2.buf.Bytes()...)
+	}
 	if it.Kind == "badck" {
 		// complete frame with a wrong checksum
 		ckpos := len(out) - 2
@@ -934,6 +971,22 @@ func (p *player) peerReader(ep, peer int, c net.Conn) {
 			p.rec.Put(M{"e": "TW", "ep": ep, "peer": peer, "bytes": B(append([]byte{}, buf[:n]...)), "t": p.ms()})
 		}
 		if err != nil {
+			p.mu.Lock()
+			p.peerEnded[[2]int{ep, peer}] = true
+			p.mu.Unlock()
+			p.rec.Put(M{"e": "PeerEnd", "ep": ep, "peer": peer, "t": p.ms()})
+			return
+		}
+	}
+}
+
+// peerSilent: a peer that never reads while the node lives. What the node managed to push into the socket buffers is
+// drained - unrecorded - once Close has returned, so that the end of the connection can still be observed.
+func (p *player) peerSilent(ep, peer int, c net.Conn) {
+	<-p.closeDone
+	buf := make([]byte, 1<<16)
+	for {
+		if _, err := c.Read(buf); err != nil {
 			p.mu.Lock()
 			p.peerEnded[[2]int{ep, peer}] = true
 			p.mu.Unlock()
